@@ -40,6 +40,8 @@ type V struct {
 	Arr  []*V
 	Keys []string
 	Vals []*V
+	// S, E: byte span of the value in the text it was parsed from (parser only).
+	S, E int
 }
 
 func Null() *V        { return &V{K: KNull} }
@@ -431,6 +433,15 @@ func (p *parser) ws() {
 }
 
 func (p *parser) value(depth int) (*V, error) {
+	st := p.i
+	v, err := p.value0(depth)
+	if v != nil {
+		v.S, v.E = st, p.i
+	}
+	return v, err
+}
+
+func (p *parser) value0(depth int) (*V, error) {
 	if p.i >= len(p.s) {
 		return nil, fmt.Errorf("eof")
 	}
@@ -835,4 +846,52 @@ func StripWS(src []byte) []byte {
 		out = append(out, c)
 	}
 	return out
+}
+
+// PathOf finds target (by pointer identity) below root and returns the steps
+// leading to it: a string for an object member name, an int for an array
+// index. ok is false when target is not part of root.
+func PathOf(root, target *V) (steps []any, ok bool) {
+	if root == target {
+		return nil, true
+	}
+	switch root.K {
+	case KObj:
+		for i, v := range root.Vals {
+			if st, ok := PathOf(v, target); ok {
+				return append([]any{root.Keys[i]}, st...), true
+			}
+		}
+	case KArr:
+		for i, v := range root.Arr {
+			if st, ok := PathOf(v, target); ok {
+				return append([]any{i}, st...), true
+			}
+		}
+	}
+	return nil, false
+}
+
+// Follow walks steps (as returned by PathOf) from root; nil when they do not lead anywhere.
+func Follow(root *V, steps []any) *V {
+	cur := root
+	for _, st := range steps {
+		switch x := st.(type) {
+		case string:
+			if cur.K != KObj {
+				return nil
+			}
+			v, ok := cur.Get(x)
+			if !ok {
+				return nil
+			}
+			cur = v
+		case int:
+			if cur.K != KArr || x < 0 || x >= len(cur.Arr) {
+				return nil
+			}
+			cur = cur.Arr[x]
+		}
+	}
+	return cur
 }
